@@ -278,6 +278,7 @@ fn documents(thorough: bool) -> (Vec<String>, Vec<String>) {
         "10 ? \"é\";: ? \"😊\" + 1", "10 NEXT é", "10 PRINT \"😊\"\n\n30 PRINT \"é\" + 1", "10 LET Z$ = \"é\" + \"😊\": LET Z = Z$", "10 PRINT NOT \"é\" + \"😊\"",
         "10 PRINT \"é\" = \"😊\" + 1", "10 DATA 😊:PRINT 1 +", "10 REM é\n10", "10 PRINT \"😊\" + 1\n10 PRINT \"", "10 IF 1 THEN PRINT \"é\" ELSE PRINT \"😊\" + 1",
         // one UTF-16 unit, three UTF-8 bytes (U+0800..U+FFFF): CJK, euro sign, dashes, curly quotes
+        "10 PRINT ((((((((((((((((((((((((((((((((((((((((((((((((((((((((((((((((((((((1))))))))))))))))))))))))))))))))))))))))))))))))))))))))))))))))))))))", "10 IF 1 THEN IF 1 THEN X = A(A(A(A(A(A(A(A(A(A(A(A(A(A(A(A(A(A(A(A(A(A(A(A(A(A(A(A(A(A(A(A(A(A(A(A(A(A(A(A(A(A(A(A(A(A(A(A(A(A(A(A(A(A(A(A(A(A(A(A(A(A(A(A(A(A(1))))))))))))))))))))))))))))))))))))))))))))))))))))))))))))))))))",
         "10 PRINT \"日本語\" + 1", "10 REM 価格 € — x\n20 X$ = 1", "10 DATA 日本, \"€\", 3: PRINT 1 +", "10 PRINT \"“q”\";Z€", "10 PRINT \"末尾", "10 A$ = \"ꙮ\": B = A$ + \"\u{ffff}\" + 1",
     ];
     docs.extend(non_ascii.iter().map(|s| s.to_string()));
